@@ -112,6 +112,19 @@ def run_case(ctx, nc, spec, si, dname, uname, vname, rname, cache, want, _shrink
 
     Vertex.NEIGHBOR_CACHING = bool(cache)
     try:
+        # the functions under test run FIRST, on objects nobody has looked at yet (a lazily initialised structure
+        # must not depend on the oracle having read the graph before); the oracle's own reads come afterwards
+        limit = 20 * (len(spec["verts"]) + len(spec["edges"])) + 200
+        first_outcomes = {}
+        for name, (lf, gf) in TRAV.items():
+            kw = dict(direction_sensitive=d, unknown_handling=u, ff_via=via)
+            nc.arm(limit)
+            try:
+                first_outcomes[name] = oracles.outcome(lf, uni, start, **kw)
+            except oracles.ExpansionBound:
+                first_outcomes[name] = ("bound", None)
+            finally:
+                nc.disarm()
         # adjacency: the statement's own definition of "followed"
         raises_ni = [False]
 
@@ -124,19 +137,14 @@ def run_case(ctx, nc, spec, si, dname, uname, vname, rname, cache, want, _shrink
 
         closure = oracles.ref_closure(start, adj, inuni)
         expect_ni = raises_ni[0]
-        limit = 20 * (len(spec["verts"]) + len(spec["edges"])) + 200
         results = {}
         for name, (lf, gf) in TRAV.items():
             kw = dict(direction_sensitive=d, unknown_handling=u, ff_via=via)
-            nc.arm(limit)
-            try:
-                out = oracles.outcome(lf, uni, start, **kw)
-            except oracles.ExpansionBound:
+            out = first_outcomes[name]
+            if out[0] == "bound":
                 viol(f"{name}:nontermination", f"{name} expanded more than {limit} vertices on a graph with "
                      f"{len(spec['verts'])} vertices / {len(spec['edges'])} links")
                 continue
-            finally:
-                nc.disarm()
             ctx.evaluated()
             if expect_ni:
                 ctx.count("cases_expect_notimplemented")
